@@ -28,6 +28,8 @@ QUICK = [
     _k('coarse_contract', opt='coarse', kind='contract', T=4),
     _k('coarse_contract_spread', opt='coarse', kind='contract', T=4, ec=True),
     _k('coarse_contract_win_unaligned', opt='coarse', kind='contract', T=5, win=(1, 5)),
+    _k('periodic_storage_duration_window_offset', opt='periodic', kind='storage', T=8, eff=0.75, duration='4h', win=(2, 8)),
+    _k('periodic_contract_duration_window_offset', opt='periodic', kind='contract', T=8, ec=True, duration='4h', win=(1, 7)),
     _k('coarse_contract_discounted', opt='coarse', kind='contract', T=4, ec=True, wacc=True, freq='d', coarse='2d'),
     _k('coarse_transport_discounted', opt='coarse', kind='transport', T=4, eff=0.5, costs=True, wacc=True, freq='d', coarse='2d'),
     _k('coarse_storage_discounted', opt='coarse', kind='storage', T=4, eff=0.75, wacc=True, freq='d', coarse='2d'),
